@@ -56,6 +56,7 @@ func init() {
 			c16UserEval(e, &c)
 		},
 		"attr-list": func(e *Env, raw json.RawMessage) { c16AttrList(e) },
+		"dict-file": func(e *Env, raw json.RawMessage) { c16FileEval(e, decode[c16FileCase](raw)) },
 		"builtin-seq": func(e *Env, raw json.RawMessage) {
 			m, err := newModel(e)
 			if err != nil {
@@ -650,6 +651,7 @@ func runC16(e *Env) {
 	e.R.AddPart(ev.Part{Name: "user-dictionaries", Enumerated: fmt.Sprintf("%d user dictionaries (n = 1, 2%s) in-process through chord.ParseChords/ParseAttributes + Builder.Build + GetChordAttributes; %d of them (every dictionary with a cycle among the user chords, and a regular sample of the rest; dictionaries of two chords also as one --chord file per chord) through `crd write --chord F --attr G` and `crd info chord describe`", len(cfgs), map[bool]string{true: ", 3 on a reduced option set", false: ""}[e.Thorough], cliN), Executions: int64(len(cfgs)) + cliN, Exhaustive: true})
 	c16Chains(e)
 	c16Overrides(e)
+	c16FileSpellings(e)
 	e.R.Sample(map[string]any{"user_chords": []map[string]any{{"name": "UserA", "display": "ua", "extends": "UserB", "attributes": []string{"Major6"}}, {"name": "UserB", "display": "ub", "extends": "m7"}}, "oracle": "UserA = 0 3 7 10 + 9"})
 	_ = bytes.Equal
 }
@@ -797,4 +799,93 @@ func c16Overrides(e *Env) {
 		e.R.NonTrivialN(2)
 	})
 	e.R.AddPart(ev.Part{Name: "redefined-built-ins", Enumerated: fmt.Sprintf("for every built-in chord that extends another one (%d): a user file that repeats it, flattens it, or reverses the pair (the child becomes the primary chord, the parent its alias; both declaration orders; alias by name and by display); where the dictionary is consistent whichever definition wins it must load, and every look-up that means the same under both readings must sound that; in-process and real binary", len(cfgs)/5), Executions: int64(2 * len(cfgs)), Exhaustive: true})
+}
+
+// c16FileSpellings: a dictionary file is YAML; however it is dressed (comments, byte-order
+// mark, CR LF, directive and document markers, flow style, anchors) it is the same dictionary.
+type c16FileCase struct {
+	Name   string `json:"spelling"`
+	Chords string `json:"chord_file"`
+	Attrs  string `json:"attr_file"`
+}
+
+const (
+	c16PlainChords = "- name: UserA\n  meta:\n    display: ua\n  extends: m7\n  attributes:\n    - Major9\n    - UA\n- name: UserB\n  meta:\n    display: ub\n  extends: UserA\n  attributes:\n    - Perfect11\n- name: UserC\n  meta:\n    display: uc\n  attributes:\n    - Perfect1\n    - UB\n    - Perfect5\n"
+	c16PlainAttrs  = "- name: UA\n  degree: \"#11\"\n- name: UB\n  degree: \"b3\"\n"
+	c16FileDoc     = "- chord:\n    degree: \"1\"\n    name: \"ua\"\n  values:\n    - \"1\"\n- chord:\n    degree: \"4\"\n    name: \"UserB\"\n  values:\n    - \"1\"\n- chord:\n    degree: \"5\"\n    name: \"uc\"\n    base: \"3\"\n  values:\n    - \"1\"\n"
+)
+
+func c16FileRun(e *Env, chords, attrs string) (string, string) {
+	dir := filepath.Join(e.Scratch, fmt.Sprintf("dict%d", atomic.AddInt64(&c16Dir, 1)))
+	if err := os.MkdirAll(dir, 0o755); err != nil {
+		panic(err)
+	}
+	defer os.RemoveAll(dir)
+	cf, af := writeTemp(dir, "chords.yml", chords), writeTemp(dir, "attrs.yml", attrs)
+	var out strings.Builder
+	for _, a := range [][]string{{"write", "event"}, {"info", "chord", "list"}, {"info", "attr", "list"}, {"info", "chord", "describe", "-t", "C_ub"}} {
+		args := append(append([]string{}, a...), "--attr", af)
+		if a[1] != "attr" {
+			args = append(args, "--chord", cf)
+		}
+		r := cli.In(c16FileDoc, args...)
+		if !r.OK() {
+			return "", fmt.Sprintf("crd %s: %s", strings.Join(a, " "), firstLine(r.Stderr))
+		}
+		out.Write(r.Stdout)
+	}
+	return out.String(), ""
+}
+
+func c16FileEval(e *Env, c c16FileCase) {
+	e.R.Eval(1)
+	want, werr := c16FileRun(e, c16PlainChords, c16PlainAttrs)
+	got, gerr := c16FileRun(e, c.Chords, c.Attrs)
+	if werr != "" {
+		panic("C16 harness: the plain dictionary is refused: " + werr)
+	}
+	if gerr != "" || got != want {
+		msg := gerr
+		if msg == "" {
+			msg = "write event / info chord list / info attr list / info chord describe print something else: " + describeDiff([]byte(want), []byte(got))
+		}
+		e.R.Fail(ev.Fail{Class: "C16/dictionary-file-spelling/" + c.Name, Msg: fmt.Sprintf("the dictionary files written with %s are not read as their plain spelling: %s", c.Name, msg), Kind: "dict-file", Case: c})
+		return
+	}
+	e.R.Outcome(c.Name)
+}
+
+func c16FileSpellings(e *Env) {
+	dress := []struct {
+		name string
+		f    func(string) string
+	}{
+		{"leading-comment", func(s string) string { return "# my chords\n" + s }},
+		{"comment-and-blank-lines-first", func(s string) string { return "\n\n# my chords\n\n" + s }},
+		{"byte-order-mark", func(s string) string { return "\xef\xbb\xbf" + s }},
+		{"crlf-line-ends", func(s string) string { return strings.ReplaceAll(s, "\n", "\r\n") }},
+		{"document-markers", func(s string) string { return "---\n" + s + "...\n" }},
+		{"yaml-directive", func(s string) string { return "%YAML 1.1\n---\n" + s }},
+		{"comment-after-every-line", func(s string) string { return strings.ReplaceAll(s, "\n", " # c\n") }},
+		{"no-final-newline", func(s string) string { return strings.TrimSuffix(s, "\n") }},
+		{"deeper-indentation", deeper},
+		{"leading-spaces-on-first-line", func(s string) string { return "  " + strings.ReplaceAll(s, "\n", "\n  ") }},
+	}
+	cases := []c16FileCase{
+		{"flow-style", "[{name: UserA, meta: {display: ua}, extends: m7, attributes: [Major9, UA]}, {name: UserB, meta: {display: ub}, extends: UserA, attributes: [Perfect11]}, {name: UserC, meta: {display: uc}, attributes: [Perfect1, UB, Perfect5]}]\n", "[{name: UA, degree: \"#11\"}, {name: UB, degree: b3}]\n"},
+		{"json", "[{\"name\": \"UserA\", \"meta\": {\"display\": \"ua\"}, \"extends\": \"m7\", \"attributes\": [\"Major9\", \"UA\"]}, {\"name\": \"UserB\", \"meta\": {\"display\": \"ub\"}, \"extends\": \"UserA\", \"attributes\": [\"Perfect11\"]}, {\"name\": \"UserC\", \"meta\": {\"display\": \"uc\"}, \"attributes\": [\"Perfect1\", \"UB\", \"Perfect5\"]}]", "[{\"name\": \"UA\", \"degree\": \"#11\"}, {\"name\": \"UB\", \"degree\": \"b3\"}]"},
+		{"anchors-and-aliases", "- name: UserA\n  meta:\n    display: ua\n  extends: &p m7\n  attributes: &x\n    - Major9\n    - UA\n- name: UserB\n  meta:\n    display: ub\n  extends: UserA\n  attributes:\n    - Perfect11\n- name: UserC\n  meta: {display: uc}\n  attributes:\n    - &one Perfect1\n    - UB\n    - Perfect5\n", "- &a\n  name: UA\n  degree: \"#11\"\n- name: UB\n  degree: \"b3\"\n"},
+		{"quoted-scalars", strings.NewReplacer("UserA", "\"UserA\"", "Major9", "'Major9'", "ua", "'ua'").Replace(c16PlainChords), strings.ReplaceAll(c16PlainAttrs, "UA", "'UA'")},
+	}
+	for _, d := range dress {
+		cases = append(cases,
+			c16FileCase{d.name + "/chord-file", d.f(c16PlainChords), c16PlainAttrs},
+			c16FileCase{d.name + "/attr-file", c16PlainChords, d.f(c16PlainAttrs)},
+			c16FileCase{d.name + "/both", d.f(c16PlainChords), d.f(c16PlainAttrs)})
+	}
+	mc.ParFor(len(cases), func(i int) {
+		c16FileEval(e, cases[i])
+		e.R.NonTrivialN(1)
+	})
+	e.R.AddPart(ev.Part{Name: "dictionary-file-spellings", Enumerated: fmt.Sprintf("a user dictionary (3 chords, 2 attributes, extends over two levels) written in %d ways (comment / blank lines / byte-order mark first, CR LF, document markers, YAML directive, comments after every line, no final newline, deeper indentation, indented first line, flow style, JSON, anchors and aliases, quoted scalars; chord file, attribute file, both): write event, info chord list, info attr list and info chord describe print what they print for the plain files", len(cases)), Executions: int64(len(cases)), Exhaustive: true})
 }
